@@ -304,6 +304,10 @@ func mulValRatio(value Quantity, ratio float64) Quantity {
 		return 0
 	}
 	result := float64(value) * ratio
+	// MaxInt64 as a float is 2^63: a result of exactly 2^63 overflows also
+	if result >= math.MaxInt64 {
+		return math.MaxInt64
+	}
 	// protect against positive integer overflow
 	if result > math.MaxInt64 {
 		log.Log(log.Resources).Warn("Multiplication result positive overflow",
